@@ -40,7 +40,9 @@ class C13(Machine):
             "with a pristine HMAC(fresh h, current key)(M). distinct = distinct abstract traces (hash, sequence of key-length "
             "classes and mac/noise ops in schedule order); non-trivial = a judged mac after at least one setkey that replaced an "
             "earlier key")
-    assumptions = ["no fault is injected on the HMAC object (nothing is promised after a failed setkey)"]
+    assumptions = ["the only fault kind is bad_call: a setkey the library refuses (wrong type) - the key set last stays in force; "
+                   "if the library accepts such a request the object is no longer judged; no interrupt or failing collaborator "
+                   "is injected into setkey (nothing is promised after a setkey that was cut short)"]
 
     def gen(self, rng, idx, seed):
         pb = PlanBuilder(self.prop, seed, idx)
@@ -91,6 +93,12 @@ class C13(Machine):
                 pb.step(c0, k="call", obj=mac, name="setkey", args=[B(k)], kw={}, tag="setkey:" + cls, kcls=cls, role="setkey")
             last = k
             keys_seen.append(k)
+            if rng.random() < 0.25:
+                # fault kind bad_call: a re-keying request the library refuses (wrong type). A call that ended in
+                # an error changes nothing (C10's clause, checked here because this machine owns the key histories):
+                # the key set last stays in force
+                badk = rng.choice([{"s": "k" * rng.choice([3, bb, bb + 5])}, None, 12345, {"t": [1, 2, 3]}])
+                pb.step(c0, k="call", obj=mac, name="setkey", args=[badk], kw={}, tag="setkey_refused", role="bad_setkey", cls="bad")
             for _ in range(rng.choice([1, 1, 2])):
                 pb.step(c0, k="call", obj=mac, name="__call__", args=[B(rng.choice(msgs))], kw={}, tag="mac", role="mac")
         macs = [mac]
@@ -135,6 +143,7 @@ class C13(Machine):
         replaced = 0
         prev_cls = None
         noise_since = False
+        nbad = [0, 0]
         trace = [name]
         for s in plan["steps"]:
             e = by_id[s["id"]]
@@ -147,6 +156,16 @@ class C13(Machine):
             mo = s["obj"]
             cur = curk[mo]
             replaced = repl[mo]
+            if s.get("role") == "bad_setkey":
+                nbad[0] += 1
+                if e["out"][0] == "exc":
+                    nbad[1] += 1
+                    probes["setkey_refused_then_mac"] = probes.get("setkey_refused_then_mac", 0) + 1
+                    continue
+                # the library accepted it: what key is in force now is not for this check to say
+                probes["odd_setkey_accepted"] = probes.get("odd_setkey_accepted", 0) + 1
+                curk.pop(mo, None)
+                continue
             if s["name"] == "setkey":
                 if e["out"][0] != "ok":
                     vs.append(vio("setkey_failed", name, s["tag"], s["id"], {"got": e["out"]}))
@@ -189,7 +208,7 @@ class C13(Machine):
                 if noise_since:
                     probes["shared_h_used_in_between"] = probes.get("shared_h_used_in_between", 0) + 1
                     noise_since = False
-        extra = {"faults": {}, "fps": sorted(set(f for e in hist for f in e.get("fp", []))),
+        extra = {"faults": {"bad_call": nbad} if nbad[0] else {}, "fps": sorted(set(f for e in hist for f in e.get("fp", []))),
                  "ngrams": sorted(k[len("keyclass_pair_"):] for k in probes if k.startswith("keyclass_pair_"))}
         probes = {k: v for k, v in probes.items() if not k.startswith("keyclass_pair_")}
         return vs, probes, "|".join(trace), nontrivial, extra
